@@ -844,6 +844,7 @@ func (x *Exec) rangeInit(fr *Frame, st *State, t *ssa.Range) error {
 		st.Vars[key] = Val{T: nil, S: []Term{{fmt.Sprintf("((as const %s) false)", ArrSort(ks, SBool)), ArrSort(ks, SBool)}}}
 		fr.regs[t] = Val{T: t.Type(), S: []Term{xv.One()}}
 		fr.localKeys["$visited"] = append(fr.localKeys["$visited"], key)
+		x.assumeMapFacts(st, tt, xv.One())
 		return nil
 	case *types.Basic:
 		key := fmt.Sprintf("f%d.range.%s.pos", fr.id, t.Name())
